@@ -6,5 +6,9 @@ import (
 	"verifharness/vt"
 )
 
-func TestProp(t *testing.T)   { vt.RunAll(t, 20000) }
+func TestProp(t *testing.T) {
+	runProbes()
+	vt.RunAll(t, 20000)
+}
+
 func TestReplay(t *testing.T) { vt.ReplayAll(t) }
